@@ -61,6 +61,7 @@ type c03Shape struct {
 	Swap    bool // the application first serves with as many do-nothing middleware, which Handlers() then replaces by the real ones
 	Info    bool `json:",omitempty"` // handlers that write send an informational status (100+position) instead of 201+position
 	Sig     int  `json:",omitempty"` // >0: handlers that return nothing use, by position, the other handler types (func(http.ResponseWriter, *http.Request), http.HandlerFunc, a reflectively invoked func(Context, *http.Request)), shifted by Sig
+	Wrap    bool `json:",omitempty"` // a HandlerWrapper (the identity) is configured before anything is registered
 	Head    bool `json:",omitempty"` // AutoHead is on and the request is a HEAD request (served by the chain registered alongside the GET route)
 }
 
@@ -73,7 +74,7 @@ func (s c03Shape) n() int {
 }
 
 func (s c03Shape) String() string {
-	return fmt.Sprintf("mw=%d group=%d route=%d action=%v flat=%v late=%v swap=%v autohead=%v informational-statuses=%v handler-types=%d", s.M, s.G, s.R, s.Action, s.Flat, s.Late, s.Swap, s.Head, s.Info, s.Sig)
+	return fmt.Sprintf("mw=%d group=%d route=%d action=%v flat=%v late=%v swap=%v autohead=%v informational-statuses=%v handler-types=%d handler-wrapper=%v", s.M, s.G, s.R, s.Action, s.Flat, s.Late, s.Swap, s.Head, s.Info, s.Sig, s.Wrap)
 }
 
 type c03Ev struct {
@@ -151,6 +152,9 @@ func c03Build(s c03Shape, strMask int) *c03World {
 	w := &c03World{f: flamego.NewWithLogger(io.Discard), method: "GET", base: 201}
 	if s.Info {
 		w.base = 100
+	}
+	if s.Wrap {
+		w.f.HandlerWrapper(func(h flamego.Handler) flamego.Handler { return h })
 	}
 	if s.Sig > 0 {
 		w.sig = s.Sig
@@ -475,6 +479,7 @@ func c03Shapes(maxN int, thorough bool) []c03Shape {
 					if thorough || n <= 3 {
 						out = append(out, c03Shape{M: m, G: g, R: r, Action: act, Sig: 1}, c03Shape{M: m, G: g, R: r, Action: act, Sig: 2})
 						out = append(out, c03Shape{M: m, G: g, R: r, Action: act, Info: true})
+						out = append(out, c03Shape{M: m, G: g, R: r, Action: act, Wrap: true})
 						out = append(out, c03Shape{M: m, G: g, R: r, Action: act, Head: true})
 						if g >= 2 {
 							out = append(out, c03Shape{M: m, G: g, R: r, Action: act, Flat: true, Head: true})
@@ -517,7 +522,15 @@ func c03Run(r *core.Run) {
 		}
 	} else {
 		r.SetBudget(70 * time.Second)
-		plans = []plan{{1, 3, c03Behaviours(2, "T", "TC", "TN", "TCN"), "<=3 positions, action strings <=2 over {N,W,C} plus T, TC, TN, TCN", 0}, {4, 4, red, "4 positions, actions {'',N,W,NN,C,T,TC} x {nothing,string,panic}", 0}}
+		mid := []c03Beh{}
+		for _, a := range []string{"", "N", "W", "C", "NN", "NW", "WN", "NC", "T", "TC"} {
+			for _, t := range []int{0, 2, 3} {
+				mid = append(mid, c03Beh{a, t})
+			}
+		}
+		plans = []plan{{1, 3, c03Behaviours(2, "T", "TC", "TN", "TCN"), "<=3 positions, base shapes, action strings <=2 over {N,W,C} plus T, TC, TN, TCN", 1},
+			{1, 3, mid, "<=3 positions, variant shapes, actions {'',N,W,C,NN,NW,WN,NC,T,TC} x {nothing,string,panic}", 2},
+			{4, 4, red, "4 positions, actions {'',N,W,NN,C,T,TC} x {nothing,string,panic}", 0}}
 	}
 	var labels []string
 	for _, pl := range plans {
@@ -531,7 +544,7 @@ func c03Run(r *core.Run) {
 		}
 		var jobs []job
 		for _, s := range shapes {
-			base := !(s.Flat || s.Late || s.Swap || s.Head || s.Info || s.Sig > 0)
+			base := !(s.Flat || s.Late || s.Swap || s.Head || s.Info || s.Sig > 0 || s.Wrap)
 			if s.n() < pl.minN || (pl.which == 1 && !base) || (pl.which == 2 && base) {
 				continue
 			}
